@@ -221,6 +221,22 @@ pub enum Op {
     Treasury(u64),
     FeeExact(u64),
     FeeMin(u64),
+    // ---- removals and the older whole-collection setters
+    RemoveTtl,
+    RemoveStart,
+    RemoveCerts,
+    RemoveWithdrawals,
+    RemoveMint,
+    RemoveAux,
+    RemoveScriptDataHash,
+    /// `set_certs` with the key-credential certificates added so far (deprecated entry point)
+    SetCertsLegacy,
+    /// `set_withdrawals` with the key withdrawals added so far (deprecated entry point)
+    SetWithdrawalsLegacy,
+    /// deprecated `add_mint_asset` / `set_mint_asset` with an inline native policy
+    MintLegacy { script: ScriptId, name: Vec<u8>, qty: i64, set: bool },
+    /// hand the session's inputs builder over again (drops inputs a selection added)
+    SetInputsAgain,
     // ---- balancing
     Select(Strategy, Vec<usize>),
     Change(ChangeSpec),
